@@ -96,7 +96,7 @@ Proof. exact (empty_deploy_is_a_call INVALID_ADDRESS). Qed.
    nowhere else. *)
 Example C17_nonvacuous :
   let cf := mkConfig 1111 NetOther 1000000000 in
-  let g := fst (e_step W MAX_FUTURE_TRANSACTION_NONCES MAX_FUTURE_TRANSACTION_BLOCKS g_init (CMine 3 7)) in
+  let g := fst (e_step W MAX_FUTURE_TRANSACTION_NONCES MAX_FUTURE_TRANSACTION_BLOCKS INDEXER_ADDRESS g_init (CMine 3 7)) in
   let ti := mkTi 42 (KCall 99) (mkBytes 4 123456) None in
   let sim := rpc_read_env cf g ti None 1700000000 None in
   let txe := rpc_tx_env cf g (OInscr ti 100 777) 0 555 in
